@@ -15,6 +15,7 @@ import (
 type Error struct {
 	Rule   string // short rule identifier, e.g. "bin.length-overruns-container"
 	Pos    int    // byte offset the rule was violated at
+	In     int    // binary: offset of the innermost value being decoded when it was violated (0 = not recorded)
 	Unsure bool
 	Detail string
 }
